@@ -40,7 +40,12 @@ void aws_thread_increment_unjoined_count(void) {
 void aws_thread_decrement_unjoined_count(void) {
     aws_mutex_lock(&s_managed_thread_lock);
     --s_unjoined_thread_count;
-    aws_condition_variable_notify_one(&s_managed_thread_signal);
+    /*
+     * Wake every waiter, not just one: several threads may be inside aws_thread_join_all_managed() at once, a waiter
+     * that is woken while the count is still above one goes back to sleep (consuming the signal), and the final
+     * decrements then do not produce enough signals to wake all of them.
+     */
+    aws_condition_variable_notify_all(&s_managed_thread_signal);
     aws_mutex_unlock(&s_managed_thread_lock);
 }
 
